@@ -73,6 +73,9 @@ def run(ctx):
         if e["ev"] == "race":
             sig = {"monitor": "race", "where": e["where"][0] if e["where"] else "?"}
             text = "data race: %s" % e["where"]
+        elif e["ev"] == "liveness":
+            sig = {"monitor": "liveness", "why": b["why"], "scenario": e["scenario"]}
+            text = "%s: %s (%d of %d keys returned)" % (e["scenario"], b["why"], e["returned"], e["issued"])
         elif e["ev"] == "unlocked":
             sig = {"monitor": "lock", "why": b["why"], "during": e["during"][:20]}
             text = "%s during %s (held=%s overlap=%s)" % (b["why"], e["during"][:300], e["held"], e["overlap"])
